@@ -54,7 +54,8 @@ def write_overlay():
             rel = os.path.relpath(src, HOOKS)
             rep[os.path.join(REPO, rel)] = src
     os.makedirs(BUILD, exist_ok=True)
-    p = os.path.join(BUILD, "overlay.json")
+    p = os.path.join(BUILD, "overlay.json" if REPO == "/repo" else
+                     "overlay_%s.json" % hashlib.sha256(REPO.encode()).hexdigest()[:8])
     tmp = p + ".%d" % os.getpid()
     with open(tmp, "w") as fh:
         json.dump({"Replace": rep}, fh, indent=1, sort_keys=True)
@@ -65,7 +66,9 @@ def write_overlay():
 def go_build(module, pkg, binname, race=False, tags="verif"):
     """Build a harness main package that lives (virtually) inside a /repo module."""
     ov = write_overlay()
-    out = os.path.join(BUILD, "bin", binname + ("_race" if race else ""))
+    out = os.path.join(BUILD, "bin" if REPO == "/repo" else
+                       "bin_%s" % hashlib.sha256(REPO.encode()).hexdigest()[:8],
+                       binname + ("_race" if race else ""))
     os.makedirs(os.path.dirname(out), exist_ok=True)
     cmd = ["go", "build", "-tags", tags, "-overlay", ov, "-o", out]
     if race:
@@ -327,9 +330,10 @@ def coq_eval_cases(pid, imports, case_type, terms, shard=400, timeout=900, extra
     cdir = os.path.join(BUILD, "cases", pid)
     os.makedirs(cdir, exist_ok=True)
     for f in os.listdir(cdir):
-        if f.startswith("cases_"):
+        if f.startswith(("cases_", ".cases_", "print_", ".print_")):
             try:
-                os.remove(os.path.join(cdir, f))
+                if time.time() - os.path.getmtime(os.path.join(cdir, f)) > 1800:
+                    os.remove(os.path.join(cdir, f))
             except OSError:
                 pass
     shards = [terms[i:i + shard] for i in range(0, len(terms), shard)]
